@@ -46,7 +46,10 @@ Runs(e) == {e.runs[i] : i \in 1..Len(e.runs)}
 AbortChecks(e) ==
   [C06_later_search_survives |-> \A r \in Runs(e) : r[2] # PanicCode,
    C06_later_search_reports_the_fresh_value |-> \A r \in Runs(e) : r[2] = PanicCode \/ Cls(r[2]) = Cls(e.fresh),
-   C06_history_as_before |-> \A r \in Runs(e) : r[3] = 0]
+   \* the engine's record of the game history is as it was: the stack has the length the history gave it, and the engine answers
+   \* the repetition question for every successor of the root exactly as it did before the interrupted search
+   C06_history_as_before |-> \A r \in Runs(e) : r[2] = PanicCode \/ r[3] = (IF "hist" \in DOMAIN e THEN e.hist ELSE 0),
+   C06_repetition_answers_as_before |-> \A r \in Runs(e) : Len(r) < 5 \/ r[4] = r[5]]
 
 VARIABLES l, skipped
 vars == <<l, skipped>>
@@ -66,7 +69,7 @@ TSpec == TInit /\ [][TBellman \/ TAbortEq]_vars
 Diag == (l = StuckAt /\ l <= Len(Rec)) =>
           PrintT(<<"DIAG", l, Rec[l].fen, "depth", Rec[l].d,
                    IF Rec[l].ev = "aborteq" THEN <<AbortChecks(Rec[l]), "fresh", Rec[l].fresh, "interrupted at poll -> later value",
-                                                     {<<r[1], r[2], r[3]>> : r \in {x \in Runs(Rec[l]) : Cls(x[2]) # Cls(Rec[l].fresh) \/ x[3] # 0}}>>
+                                                     {<<r[1], r[2], r[3]>> : r \in {x \in Runs(Rec[l]) : Cls(x[2]) # Cls(Rec[l].fresh) \/ (Len(x) >= 5 /\ x[4] # x[5])}}>>
                    ELSE Checks(Rec[l]),
                    IF "v" \in DOMAIN Rec[l] THEN <<"reported", Rec[l].v, Rec[l].move, "max over the moves", Best(Rec[l]),
                                                     "attained by", {k[1] : k \in {x \in Kids(Rec[l]) : Cls(-x[2]) = Best(Rec[l])}}>> ELSE <<>> >>)
